@@ -138,6 +138,14 @@ class _Opaque(_Stub):
             raise AnalysisError(f"C15 world model: a repository function is handed to `{self._path}` (library outside the model): whether / when it is called is not modelled")
         return _Opaque(f"{self._path}()")
 
+    def __enter__(self):
+        if self._path.startswith("contextlib."):  # (contextlib's managers do have an effect on control flow: never "no effect")
+            raise AnalysisError(f"C15 world model: `with {self._path}` (only suppress(..) / nullcontext() as the single item of a with-statement are modelled)")
+        return _Opaque(f"{self._path}.__enter__()")
+
+    def __exit__(self, *a):
+        return False
+
     def _refuse(self, *a, **k):
         raise AnalysisError(f"C15 world model: a decision depends on the value of `{self._path}` (library outside the model)")
 
@@ -619,6 +627,9 @@ class _WInterp(Interp):
             self._sink = None
 
     def do_yield(self, value):
+        cm = self._cm[-1] if self._cm else None
+        if cm is not None and cm["state"] != "body" and len(self._gen_targets) == cm["gd"]:
+            return Interp.do_yield(self, value)  # the `yield` of a repository @contextmanager function: pyint runs the with-body here
         if not self._gen_targets and self._sink is not None:
             self._sink.append(("yield", value))
             return None
@@ -674,18 +685,11 @@ class _WInterp(Interp):
                         fields[st.target.id] = True
         return list(fields)
 
-    # -- (i) a context manager of a library outside the model has no effect on the modelled world
+    # -- (i) `with`: pyint inlines repository @contextmanager functions and handles suppress() / nullcontext(); a context manager of a library
+    #    outside the model is an _Opaque (its __enter__ / __exit__ have no effect on the modelled world)
     def stmt(self, st, env, mod, depth):
         if isinstance(st, ast.Raise) and isinstance(st.exc, ast.Name) and isinstance(env.get(st.exc.id), BaseException):
             raise self._raised(env[st.exc.id])
-        if isinstance(st, ast.With) and not any(isinstance(i.context_expr, ast.Call) and last_attr(i.context_expr.func) in ("suppress", "nullcontext") for i in st.items):
-            vals = [self.ev(i.context_expr, env, mod, depth) for i in st.items]
-            if all(isinstance(v, _Opaque) for v in vals):
-                for i, v in zip(st.items, vals):
-                    if i.optional_vars is not None:
-                        self.assign(i.optional_vars, _Opaque(f"{v._path}.__enter__()"), env, mod, depth)
-                return self.block(st.body, env, mod, depth)
-            raise AnalysisError(f"pyint: with-statement not modelled: {norm(st)[:80]}")
         return Interp.stmt(self, st, env, mod, depth)
 
     # -- (d) + (g)
